@@ -394,6 +394,14 @@ pub fn gen_contention(r: &mut Rng, cfg: &GenCfg) -> Ledger {
         let on = anchor + Duration::days(*r.pick(&[3i64, 10, 30]));
         out.push(GTx::new(on, tk, Kind::Unsplit, exact_unratio(r), Decimal::ZERO, Decimal::ZERO));
     }
+    if cfg.splits && cfg.max_tickers >= 2 && r.chance(1, 4) {
+        // another security reorganised inside the window: must not touch this one
+        let other = "BBB";
+        out.push(GTx::new(anchor - Duration::days(r.range(1, 40)), other, Kind::Buy, gen_qty(r, false), gen_price(r), gen_fee(r, cfg.fees)));
+        let on = anchor + Duration::days(*r.pick(&[0i64, 1, 2, 5, 10, 29]));
+        let kind = if r.chance(1, 2) { Kind::Split } else { Kind::Unsplit };
+        out.push(GTx::new(on, other, kind, exact_unratio(r), Decimal::ZERO, Decimal::ZERO));
+    }
     if r.chance(1, 3) {
         r.shuffle(&mut out);
     } else {
